@@ -1187,12 +1187,12 @@ impl NodeMut for XmlDocument {
         new_child: XmlNode,
         ref_child: Option<&XmlNode>,
     ) -> error::Result<XmlNode> {
-        if Some(self.clone()) != new_child.owner_document() {
+        if !XmlDocument::same(&Some(self.clone()), &new_child.owner_document()) {
             return Err(error::DomException::WrongDocumentErr)?;
         }
 
         let value = if let Some(r) = ref_child {
-            if Some(self.clone()) != r.owner_document() {
+            if !XmlDocument::same(&Some(self.clone()), &r.owner_document()) {
                 return Err(error::DomException::WrongDocumentErr)?;
             }
 
@@ -1216,7 +1216,7 @@ impl NodeMut for XmlDocument {
     }
 
     fn remove_child(&self, old_child: &XmlNode) -> error::Result<XmlNode> {
-        if Some(self.clone()) != old_child.owner_document() {
+        if !XmlDocument::same(&Some(self.clone()), &old_child.owner_document()) {
             return Err(error::DomException::WrongDocumentErr)?;
         }
 
@@ -1275,6 +1275,15 @@ impl fmt::Display for XmlDocument {
 }
 
 impl XmlDocument {
+    /// Whether both are the very same document, not merely documents with equal content.
+    fn same(a: &Option<XmlDocument>, b: &Option<XmlDocument>) -> bool {
+        match (a, b) {
+            (Some(a), Some(b)) => Rc::ptr_eq(&a.document, &b.document),
+            (None, None) => true,
+            _ => false,
+        }
+    }
+
     pub fn from_raw(value: &str) -> error::Result<(&str, Self)> {
         let (rest, tree) = xml_parser::document(value)?;
         let document = info::XmlDocument::new(&tree)?;
@@ -1588,12 +1597,12 @@ impl NodeMut for XmlAttr {
         new_child: XmlNode,
         ref_child: Option<&XmlNode>,
     ) -> error::Result<XmlNode> {
-        if self.owner_document() != new_child.owner_document() {
+        if !XmlDocument::same(&self.owner_document(), &new_child.owner_document()) {
             return Err(error::DomException::WrongDocumentErr)?;
         }
 
         let value = if let Some(r) = ref_child {
-            if self.owner_document() != r.owner_document() {
+            if !XmlDocument::same(&self.owner_document(), &r.owner_document()) {
                 return Err(error::DomException::WrongDocumentErr)?;
             }
 
@@ -1617,7 +1626,7 @@ impl NodeMut for XmlAttr {
     }
 
     fn remove_child(&self, old_child: &XmlNode) -> error::Result<XmlNode> {
-        if self.owner_document() != old_child.owner_document() {
+        if !XmlDocument::same(&self.owner_document(), &old_child.owner_document()) {
             return Err(error::DomException::WrongDocumentErr)?;
         }
 
@@ -1768,7 +1777,7 @@ impl ElementMut for XmlElement {
     }
 
     fn set_attribute_node(&self, new_attr: XmlAttr) -> error::Result<Option<XmlAttr>> {
-        if self.owner_document() != new_attr.owner_document() {
+        if !XmlDocument::same(&self.owner_document(), &new_attr.owner_document()) {
             return Err(error::DomException::WrongDocumentErr)?;
         }
 
@@ -1892,12 +1901,12 @@ impl NodeMut for XmlElement {
         new_child: XmlNode,
         ref_child: Option<&XmlNode>,
     ) -> error::Result<XmlNode> {
-        if self.owner_document() != new_child.owner_document() {
+        if !XmlDocument::same(&self.owner_document(), &new_child.owner_document()) {
             return Err(error::DomException::WrongDocumentErr)?;
         }
 
         let value = if let Some(r) = ref_child {
-            if self.owner_document() != r.owner_document() {
+            if !XmlDocument::same(&self.owner_document(), &r.owner_document()) {
                 return Err(error::DomException::WrongDocumentErr)?;
             }
 
@@ -1921,7 +1930,7 @@ impl NodeMut for XmlElement {
     }
 
     fn remove_child(&self, old_child: &XmlNode) -> error::Result<XmlNode> {
-        if self.owner_document() != old_child.owner_document() {
+        if !XmlDocument::same(&self.owner_document(), &old_child.owner_document()) {
             return Err(error::DomException::WrongDocumentErr)?;
         }
 
